@@ -27,6 +27,7 @@ func c03Spaces(tier string) []pairLeg {
 		add("A3cont", Arr(3, "cont"))
 		add("U4", noVoid(U(4)))
 		add("E2", EditStates(2, 600))
+		add("deep", Deep(true))
 	} else {
 		add("A3x6", Arr(3, "6"))
 		add("A4x123", Arr(4, "123"))
@@ -37,6 +38,7 @@ func c03Spaces(tier string) []pairLeg {
 		add("A2cont", Arr(2, "cont"))
 		add("U3", noVoid(U(3)))
 		add("E1", EditStates(1, 150))
+		add("deep", Deep(false))
 	}
 	return legs
 }
